@@ -5,7 +5,7 @@ from vlib.runner import Failure
 
 PID = "C04"
 LEAN_MODULE = "NunVerif.Props.C04"
-THEOREMS = ["Nun.C04_same_messages_same_state", "Nun.C04_fanout_reaches_every_secondary", "Nun.C14_secondary_never_fans_out", "Nun.C14_fanout_bounded"]
+THEOREMS = ["Nun.C04_replicas_agree_on_writes", "Nun.setValue_agree", "Nun.C04_finding_remove_depends_on_persistence", "Nun.C04_same_messages_same_state", "Nun.C04_fanout_reaches_every_secondary", "Nun.C14_secondary_never_fans_out", "Nun.C14_fanout_bounded"]
 
 OPS = ["set a {v}", "set b {v}", "set a two words {v}", "remove a", "remove b", "increment n", "increment n 5", "increment n 0", "increment m{v} 0", "increment n -3", "remove n", "set-safe a {ver} s{v}", "create-user u{v} pw", "set-permissions u1 rw a*",
        "snapshot false", "create-db d{v} tk", "set n 7", "resolve {v} t r 1 res{v}", "SNAP", "SNAP"]
@@ -95,6 +95,19 @@ def scenario(k, n_ops, concurrent, single_node=None):
         return diverged(net, k, hist, "overlapping-operations")
     return fn
 
+def scenario_snapshot_timing(k):
+    """all writes on the primary; the periodic snapshot has run on ONE node only when a key is removed and written again"""
+    def fn(net, rng):
+        if not setup(net, k, rng): return [Failure("cluster-does-not-form", f"{k} nodes")]
+        hist = []
+        for node, cmd in [(1, "set a 1"), (1, "snapshot false"), (1, "SNAP"), (1, "remove a"), (1, "set a 2")]:
+            hist.append((node, cmd))
+            if cmd == "SNAP": net.op(node, "SNAP"); net.op(node, "PUMP")
+            else: net.cmd(node, 1, cmd)
+            if net.quiesce(rng, 300) is None: return [Failure("no-quiescence", f"after {cmd}")]
+        return diverged(net, k, hist, "removed-key-rewritten-where-only-some-nodes-had-snapshotted-it")
+    return fn
+
 def key_of(cmd):
     p = cmd.split(" ")
     if p[0] in ("set", "remove", "increment", "set-safe"): return p[1]
@@ -112,6 +125,7 @@ def scenarios(tier):
             S.append((f"k{k}-concurrent-{r}", scenario(k, 2 + (r % 7), True)))
         S.append((f"k{k}-primary-only", scenario(k, 6, False, single_node=1)))
         S.append((f"k{k}-secondary-only", scenario(k, 6, False, single_node=2)))
+        S.append((f"k{k}-snapshot-timing", scenario_snapshot_timing(k)))
     return S
 
 RULE = ("clusters of 2 and 3 real nodes formed through the real join path (join -> supervisor -> connections -> set-primary / set-secoundary / replicate-since handshakes), then sequences of 1-8 client operations "
